@@ -1251,9 +1251,12 @@ class Model:
                         numeric_groups.append({})
                     idx = numeric_group_sets.index(numeric_set)
                     # Prevent full encoding when numeric part is present outside
-                    # this numeric-categoric interaction
-                    if numeric_part in components:
-                        numeric_groups[idx][numeric_part] = []
+                    # this numeric-categoric interaction, in whatever order it is written
+                    for k_, v_ in components.items():
+                        names = set(v_) if isinstance(v_, dict) else {k_}
+                        kinds = set(v_.values()) if isinstance(v_, dict) else {v_}
+                        if names == numeric_set and kinds == {"numeric"}:
+                            numeric_groups[idx][numeric_part] = []
                     numeric_groups[idx][k] = categoric
 
         return [categoric_group] + numeric_groups
